@@ -934,7 +934,8 @@ const ruleTextNotFoundOnly = "the history storage distinguishes absence from fai
 func checkNotFoundOnly(c *Ctx, rule string) {
 	n := 0
 	c.AllFuncs(true, func(fi *FuncInfo) {
-		if fi.Pkg.PkgPath != pCmdmig || recvName(fi.Decl) != "EntRevisions" || fi.Decl.Body == nil {
+		// the EntRevisions readers and the package-local helpers they share
+		if fi.Pkg.PkgPath != pCmdmig || fi.Decl.Body == nil {
 			return
 		}
 		info := fi.Info()
@@ -962,8 +963,8 @@ func checkNotFoundOnly(c *Ctx, rule string) {
 			return true
 		})
 	})
-	if n < 2 {
-		c.Unresolved(rule, "returns of migrate.ErrRevisionNotExist in the EntRevisions readers (fewer than 2)")
+	if n < 1 {
+		c.Unresolved(rule, "returns of migrate.ErrRevisionNotExist in the EntRevisions readers")
 	}
 }
 
@@ -1299,23 +1300,34 @@ func checkCommentOpeners(c *Ctx, rule string) {
 	})
 	// constants the header reader tests as prefixes: HasPrefix second arguments and elements of string tables in the function
 	known := map[string]bool{}
-	ast.Inspect(cm.Decl.Body, func(m ast.Node) bool {
-		switch x := m.(type) {
-		case *ast.CallExpr:
-			if funcIs(calleeOf(cinfo, x), "strings", "", "HasPrefix") && len(x.Args) == 2 {
-				if v, ok := stringConst(cinfo, x.Args[1]); ok {
-					known[v] = true
+	var collect func(body ast.Node, depth int)
+	collect = func(body ast.Node, depth int) {
+		ast.Inspect(body, func(m ast.Node) bool {
+			switch x := m.(type) {
+			case *ast.CallExpr:
+				fn := calleeOf(cinfo, x)
+				if funcIs(fn, "strings", "", "HasPrefix") && len(x.Args) == 2 {
+					if v, ok := stringConst(cinfo, x.Args[1]); ok {
+						known[v] = true
+					}
+				}
+				// a package-local predicate the reader delegates the test to
+				if depth < 2 && fn != nil && fn.Pkg() != nil && fn.Pkg().Path() == pMigrate {
+					if hf := c.FuncInfoOf(fn); hf != nil && hf.Decl.Body != nil && hf.Decl != cm.Decl {
+						collect(hf.Decl.Body, depth+1)
+					}
+				}
+			case *ast.CompositeLit:
+				for _, el := range x.Elts {
+					if v, ok := stringConst(cinfo, el); ok {
+						known[v] = true
+					}
 				}
 			}
-		case *ast.CompositeLit:
-			for _, el := range x.Elts {
-				if v, ok := stringConst(cinfo, el); ok {
-					known[v] = true
-				}
-			}
-		}
-		return true
-	})
+			return true
+		})
+	}
+	collect(cm.Decl.Body, 0)
 	c.funcs[cm.Name] = true
 	for _, o := range openers {
 		c.Check(rule, "migrate.(LocalFile).comments|recognises the scanner's line-comment opener "+o, cm.Decl.Pos(), known[o], "the statement scanner skips lines that start with %q as comments but LocalFile.comments tests only the prefixes %v: a header that contains such a line is not read as the file's comment block, its directives (atlas:txmode, atlas:checkpoint) are ignored and the file is executed under the global transaction mode", o, keys(known))
@@ -1521,7 +1533,7 @@ func checkFKSides(c *Ctx, rule string) {
 }
 
 // R15r: a type recognised as an array stays an array.
-const ruleTextArrayKept = "recognition implies preservation for PostgreSQL arrays: every function of sql/postgres that recognises an array type by its name (a call of arrayType) keeps the array — it builds an ArrayType literal with its element, or stores the resolved element into the Type field of an *ArrayType value; the HCL evaluator resolves `sql(\"state[]\")` against the enums of the document this way, and replacing the column's type by the enum itself turns an array column into a scalar one"
+const ruleTextArrayKept = "recognition implies preservation for PostgreSQL arrays: every function of sql/postgres that recognises an array type by its name (a call of arrayType) keeps the array — it builds an ArrayType literal with its element, stores the resolved element into the Type field of an *ArrayType value, or hands the name on under the TypeArray tag (from which columnType builds the ArrayType); the HCL evaluator resolves `sql(\"state[]\")` against the enums of the document this way, and replacing the column's type by the enum itself turns an array column into a scalar one"
 
 func checkArrayKept(c *Ctx, rule string) {
 	n := 0
@@ -1561,6 +1573,11 @@ func checkArrayKept(c *Ctx, rule string) {
 						if se, ok := ast.Unparen(l).(*ast.SelectorExpr); ok && se.Sel.Name == "Type" && typeIs(derefType(binfo.TypeOf(se.X)), pPostgres, "ArrayType") {
 							kept = true
 						}
+					}
+				case *ast.Ident:
+					// the recognised name handed on under the array type tag (columnDesc{typ: TypeArray}): columnType builds the ArrayType from it
+					if cst, ok := binfo.Uses[x].(*types.Const); ok && cst.Name() == "TypeArray" && cst.Pkg() != nil && cst.Pkg().Path() == pPostgres {
+						kept = true
 					}
 				case *ast.CallExpr:
 					// the recognised name handed to a package-local function that builds the array (ParseType → columnType)
@@ -1722,6 +1739,75 @@ func checkPragmaRecognised(c *Ctx, rule string) {
 			c.Unresolved(rule, "sqltool."+reName+": "+err.Error())
 			continue
 		}
+		// a table-driven reader: the pragma word indexes a package-level table whose keys are the words
+		ast.Inspect(fi.Decl.Body, func(m ast.Node) bool {
+			ix, ok := m.(*ast.IndexExpr)
+			if !ok {
+				return true
+			}
+			tid, ok := ast.Unparen(ix.X).(*ast.Ident)
+			if !ok {
+				return true
+			}
+			lit := c.pkgVarLiteral(info.ObjectOf(tid))
+			if lit == nil {
+				return true
+			}
+			// the index: a local defined from strings.TrimPrefix(line, pragma), possibly trimmed
+			pragma, trimmed := "", false
+			scan := func(e ast.Expr) {
+				ast.Inspect(e, func(k ast.Node) bool {
+					if call, ok := k.(*ast.CallExpr); ok {
+						fn := calleeOf(info, call)
+						if (funcIs(fn, "strings", "", "TrimPrefix") || funcIs(fn, "strings", "", "CutPrefix")) && len(call.Args) == 2 {
+							pragma, _ = stringConst(info, call.Args[1])
+						}
+						if funcIs(fn, "strings", "", "TrimSpace") || funcIs(fn, "strings", "", "Fields") {
+							trimmed = true
+						}
+					}
+					return true
+				})
+			}
+			scan(ix.Index)
+			if id, ok := ast.Unparen(ix.Index).(*ast.Ident); ok && pragma == "" {
+				obj := info.ObjectOf(id)
+				ast.Inspect(fi.Decl.Body, func(k ast.Node) bool {
+					if as, ok := k.(*ast.AssignStmt); ok {
+						for i, l := range as.Lhs {
+							if lid, ok := l.(*ast.Ident); ok && info.ObjectOf(lid) == obj && i < len(as.Rhs) {
+								scan(as.Rhs[i])
+							}
+						}
+					}
+					return true
+				})
+			}
+			if pragma == "" {
+				return true
+			}
+			for _, el := range lit.Elts {
+				kv, ok := el.(*ast.KeyValueExpr)
+				if !ok {
+					continue
+				}
+				w, ok := stringConst(c.infoOf(info.ObjectOf(tid)), kv.Key)
+				if !ok {
+					continue
+				}
+				n++
+				c.funcs[fi.Name] = true
+				var lost []string
+				for _, line := range []string{pragma + w + " ", pragma + w + "\t", pragma + " " + w, pragma + " " + w + "  "} {
+					rest := strings.TrimPrefix(line, pragma)
+					if re.MatchString(line) && rest != w && !trimmed {
+						lost = append(lost, line)
+					}
+				}
+				c.Check(rule, fi.Name+"|pragma "+w+" is recognised wherever the filter removes it", ix.Pos(), len(lost) == 0, "%s: the line filter %s removes the lines %q, but the transition table is indexed with the untrimmed remainder and does not recognise them as %q: the line vanishes without changing the state", fi.Name, reName, lost, w)
+			}
+			return true
+		})
 		// the state switch: tag derived from strings.TrimPrefix(line, pragma)
 		ast.Inspect(fi.Decl.Body, func(m ast.Node) bool {
 			sw, ok := m.(*ast.SwitchStmt)
@@ -1907,11 +1993,15 @@ func checkStateConsumed(c *Ctx, rule string) {
 			}
 			for _, pt := range f.find(func(nd ast.Node) bool {
 				as, ok := nd.(*ast.AssignStmt)
-				if !ok || !isStore(nd) || len(as.Rhs) != 1 {
+				if !ok || !isStore(nd) || len(as.Rhs) != 1 || cn.ifs.Pos() <= as.Pos() && as.End() <= cn.ifs.End() {
 					return false
 				}
+				if !(loop.Pos() <= as.Pos() && as.End() <= loop.End()) {
+					return false
+				}
+				// a store of the constant V, or of a value that is not a constant (a table-driven transition may yield V)
 				v, ok := constOf(as.Rhs[0])
-				return ok && v == cn.val && !(cn.ifs.Pos() <= as.Pos() && as.End() <= cn.ifs.End())
+				return !ok || v == cn.val
 			}) {
 				n++
 				c.funcs[fi.Name] = true
@@ -1978,67 +2068,33 @@ func checkQualifierIndependent(c *Ctx, rule string) {
 					break
 				}
 				if fl == nil {
-					return true // not decided by a URL.Schema test in this function (R16d reports it)
+					// an option function declared at package level: the decision is where the function is handed out
+					if fi.Decl.Recv == nil && fi.Decl.Type.Params.NumFields() == 1 && typeIs(derefType(info.TypeOf(fi.Decl.Type.Params.List[0].Type)), pMigrate, "PlanOptions") {
+						c.AllFuncs(false, func(uf *FuncInfo) {
+							if uf.Pkg != fi.Pkg || uf.Decl.Body == nil || uf == fi {
+								return
+							}
+							uinfo := uf.Info()
+							ast.Inspect(uf.Decl.Body, func(k ast.Node) bool {
+								id, isID := k.(*ast.Ident)
+								if !isID || uinfo.ObjectOf(id) != types.Object(fi.Obj) {
+									return true
+								}
+								n++
+								c.funcs[uf.Name] = true
+								esc := qualifierEscapes(uinfo, uf.Decl.Body, id)
+								c.Check(rule, uf.Name+"|the qualifier store is reached whenever the connection is schema-bound", id.Pos(), !esc, "%s can finish configuring the plan options without handing out %s on a path that never established URL.Schema == \"\": for a schema-bound connection the statements then carry the schema's name (the decision depends on an unrelated option)", uf.Name, fi.Decl.Name.Name)
+								return true
+							})
+						})
+					}
+					return true // otherwise not decided by a URL.Schema test in this function (R16d reports it)
 				}
 				node = fl
 			}
 			n++
 			c.funcs[fi.Name] = true
-			f := newFlow(info, body)
-			schemaTest := func(e ast.Expr, val bool) (isTest bool, nonEmpty bool) {
-				be, ok := ast.Unparen(e).(*ast.BinaryExpr)
-				if !ok || (be.Op != token.NEQ && be.Op != token.EQL) {
-					return false, false
-				}
-				str, other := be.Y, be.X
-				if s, ok := stringConst(info, be.X); ok && s == "" {
-					str, other = be.X, be.Y
-				}
-				if s, ok := stringConst(info, str); !ok || s != "" {
-					return false, false
-				}
-				if !strings.HasSuffix(types.ExprString(other), ".URL.Schema") {
-					return false, false
-				}
-				return true, (be.Op == token.NEQ) == val
-			}
-			escaped := false
-			seen := map[*cfg.Block]bool{}
-			var walk func(b *cfg.Block)
-			walk = func(b *cfg.Block) {
-				if seen[b] || escaped {
-					return
-				}
-				seen[b] = true
-				for _, nd := range b.Nodes {
-					if nd.Pos() <= node.Pos() && node.End() <= nd.End() {
-						return
-					}
-					if isReturn(nd) {
-						escaped = true
-						return
-					}
-				}
-				if len(b.Succs) == 0 {
-					escaped = true
-					return
-				}
-				cond, _, _ := condOf(b)
-				for si, sb := range b.Succs {
-					pruned := false
-					if cond != nil && len(b.Succs) == 2 {
-						for _, fct := range impliedFacts(cond, si == 0) {
-							if is, nonEmpty := schemaTest(fct.expr, fct.val); is && !nonEmpty {
-								pruned = true // an edge on which the connection is known not to be schema-bound
-							}
-						}
-					}
-					if !pruned {
-						walk(sb)
-					}
-				}
-			}
-			walk(f.G.Blocks[0])
+			escaped := qualifierEscapes(info, body, node)
 			c.Check(rule, fi.Name+"|the qualifier store is reached whenever the connection is schema-bound", as.Pos(), !escaped, "%s can finish configuring the plan options without storing SchemaQualifier on a path that never established URL.Schema == \"\": for a schema-bound connection the statements then carry the schema's name (the decision depends on an unrelated option)", fi.Name)
 			return true
 		})
@@ -2968,4 +3024,65 @@ func checkScopeCountsReferences(c *Ctx, rule string) {
 		return
 	}
 	c.Check(rule, "sqlx.CheckChangesScope|the schemas of referenced tables are counted", fi.Decl.Pos(), recorded, "CheckChangesScope never records the schema of a table reached through ForeignKey.RefTable: a table whose foreign key points into another schema passes the one-schema check, and under the empty qualifier the reference is printed without its schema, i.e. re-homed to the connected schema")
+}
+
+// qualifierEscapes reports whether the body can be left (return or end) without passing the CFG node that
+// contains `node`, along edges none of which implies <x>.URL.Schema == "".
+func qualifierEscapes(info *types.Info, body *ast.BlockStmt, node ast.Node) bool {
+	f := newFlow(info, body)
+	schemaTest := func(e ast.Expr, val bool) (isTest bool, nonEmpty bool) {
+		be, ok := ast.Unparen(e).(*ast.BinaryExpr)
+		if !ok || (be.Op != token.NEQ && be.Op != token.EQL) {
+			return false, false
+		}
+		str, other := be.Y, be.X
+		if s, ok := stringConst(info, be.X); ok && s == "" {
+			str, other = be.X, be.Y
+		}
+		if s, ok := stringConst(info, str); !ok || s != "" {
+			return false, false
+		}
+		if !strings.HasSuffix(types.ExprString(other), ".URL.Schema") {
+			return false, false
+		}
+		return true, (be.Op == token.NEQ) == val
+	}
+	escaped := false
+	seen := map[*cfg.Block]bool{}
+	var walk func(b *cfg.Block)
+	walk = func(b *cfg.Block) {
+		if seen[b] || escaped {
+			return
+		}
+		seen[b] = true
+		for _, nd := range b.Nodes {
+			if nd.Pos() <= node.Pos() && node.End() <= nd.End() {
+				return
+			}
+			if isReturn(nd) {
+				escaped = true
+				return
+			}
+		}
+		if len(b.Succs) == 0 {
+			escaped = true
+			return
+		}
+		cond, _, _ := condOf(b)
+		for si, sb := range b.Succs {
+			pruned := false
+			if cond != nil && len(b.Succs) == 2 {
+				for _, fct := range impliedFacts(cond, si == 0) {
+					if is, nonEmpty := schemaTest(fct.expr, fct.val); is && !nonEmpty {
+						pruned = true // an edge on which the connection is known not to be schema-bound
+					}
+				}
+			}
+			if !pruned {
+				walk(sb)
+			}
+		}
+	}
+	walk(f.G.Blocks[0])
+	return escaped
 }
